@@ -1,14 +1,18 @@
 ------------------------------ MODULE GHistCases ------------------------------
 (* Builder of git histories (see GHist): one action per commit / tag / branch head. *)
 EXTENDS GHist, Json
-CONSTANTS MaxCommits, MaxTags, MaxBranches, Emit
+CONSTANTS MaxCommits, MaxTags, MaxBranches, Emit,
+          Shape     \* "any": every parents relation; "diamond": 1 <- 2, 1 <- 3, {2,3} <- 4, 3 <- 5 (two parallel lines that are
+                    \* merged, and a line that continues one of them) with every choice of matching commits, tags and heads
+DiamondParents(i) == CASE i = 1 -> {} [] i \in {2, 3} -> {1} [] i = 4 -> {2, 3} [] OTHER -> {3}
 VARIABLES n, parents, match, tagged, head, phase
 vars == <<n, parents, match, tagged, head, phase>>
 Init == n = 0 /\ parents = <<>> /\ match = <<>> /\ tagged = <<>> /\ head = <<>> /\ phase = "commits"
 Commit(ps, m) == /\ phase = "commits" /\ n < MaxCommits
+                 /\ (Shape = "diamond" => ps = DiamondParents(n + 1))
                  /\ n' = n + 1 /\ parents' = Append(parents, ps) /\ match' = Append(match, m)
                  /\ tagged' = Append(tagged, FALSE) /\ UNCHANGED <<head, phase>>
-EndCommits == phase = "commits" /\ n > 0 /\ phase' = "tags" /\ UNCHANGED <<n, parents, match, tagged, head>>
+EndCommits == phase = "commits" /\ n > 0 /\ (Shape = "diamond" => n = MaxCommits) /\ phase' = "tags" /\ UNCHANGED <<n, parents, match, tagged, head>>
 (* tags are put in increasing commit order so that every set of tags is built once *)
 LastTag == IF \E c \in 1 .. n : tagged[c] THEN CHOOSE c \in 1 .. n : tagged[c] /\ \A d \in (c + 1) .. n : ~tagged[d] ELSE 0
 Tag(c) == /\ phase = "tags" /\ c > LastTag /\ Cardinality({ d \in 1 .. n : tagged[d] }) < MaxTags
